@@ -125,7 +125,7 @@ impl Prop for PExec {
         if !multi {
             let truth: Vec<Value> = split_nul(&r.out)
                 .iter()
-                .map(|rec| if rec.len() >= 2 && rec[1] == b'|' { json!([rec[0] == b'T', bytes_to_json(&rec[2..])]) } else { json!([false, bytes_to_json(b"<junk>")]) })
+                .map(|rec| if rec.len() >= 2 && rec[1] == b'|' { json!([rec[0] == b'T', bytes_to_json(&unlossy(&rec[2..], &tree))]) } else { json!([false, bytes_to_json(b"<junk>")]) })
                 .collect();
             o["truth"] = json!(truth);
         }
@@ -188,8 +188,13 @@ impl Prop for PExec {
                 template.push(str_to_json(*rng.pick(&pieces)));
             }
             let nocmd = idx % 17 == 3;
-            json!({"mode": "single", "tree": tree, "roots": roots, "cfg": cfg, "pre": pre, "template": template, "execdir": execdir,
-                   "script": if nocmd { vec![] } else { script }, "nocmd": nocmd})
+            let mut v = json!({"mode": "single", "tree": tree, "roots": roots, "cfg": cfg, "pre": pre, "template": template, "execdir": execdir,
+                   "script": if nocmd { vec![] } else { script }, "nocmd": nocmd});
+            // "byte for byte" also for names that are not valid UTF-8 (the test before the action then looks at types only)
+            if rng.chance(1, 4) && add_raw_names(&mut v, rng) && v["pre"]["p"] == "name" {
+                v["pre"] = json!({"p": "none"});
+            }
+            v
         } else {
             let mut fixed = vec![];
             for _ in 0..rng.below(3) {
